@@ -2574,6 +2574,14 @@ impl DcpsDomainParticipant {
 
         let prefix = Guid::from(<[u8; 16]>::from(*handle)).prefix();
 
+        // The endpoints of the participant are gone with it and must not be matched again
+        self.domain_participant
+            .discovered_reader_list
+            .retain(|r| r.reader_proxy.remote_reader_guid.prefix() != prefix);
+        self.domain_participant
+            .discovered_writer_list
+            .retain(|w| w.writer_proxy.remote_writer_guid.prefix() != prefix);
+
         for subscriber in &mut self.domain_participant.user_defined_subscriber_list {
             for data_reader in &mut subscriber.data_reader_list {
                 // Remove samples
@@ -2581,35 +2589,29 @@ impl DcpsDomainParticipant {
                     .sample_list
                     .retain(|sample| sample.writer_guid[..12] != prefix);
 
-                let removed_writer_guids: Vec<_> = data_reader
+                let removed_publication_list: Vec<_> = data_reader
                     .matched_publication_list
                     .iter()
                     .filter(|m| m.key.value[0..12] == prefix)
-                    .map(|m| m.key.value)
+                    .map(|m| InstanceHandle::new(m.key.value))
                     .collect();
-                for key in removed_writer_guids {
-                    data_reader
-                        .transport_reader
-                        .delete_matched_writer(key.into());
+                for publication_handle in &removed_publication_list {
+                    data_reader.remove_matched_publication(publication_handle);
                 }
             }
         }
 
         for publisher in &mut self.domain_participant.user_defined_publisher_list {
             for data_writer in &mut publisher.data_writer_list {
-                for matched_subscription in &data_writer.matched_subscription_list {
-                    if matched_subscription.key.value[..12] == prefix {
-                        // Remove readers
-                        data_writer
-                            .writer
-                            .transport_writer
-                            .delete_matched_reader(matched_subscription.key.value.into());
-                    }
-                }
-                data_writer
+                let removed_subscription_list: Vec<_> = data_writer
                     .matched_subscription_list
-                    .retain(|subscription| subscription.key.value[..12] != prefix);
-                data_writer.notify_if_all_acknowledged();
+                    .iter()
+                    .filter(|m| m.key.value[..12] == prefix)
+                    .map(|m| InstanceHandle::new(m.key.value))
+                    .collect();
+                for subscription_handle in &removed_subscription_list {
+                    data_writer.remove_matched_subscription(subscription_handle);
+                }
             }
         }
 
